@@ -41,6 +41,7 @@ func (g *Gen) mxRun(what string, i int) {
 
 func (g *Gen) runMxLoop(nops int) {
 	r := g.rng
+	g.mxProfile = true
 	g.env = NewEnv(false)
 	defer g.env.mxStop()
 	g.do("reset")
